@@ -22,6 +22,9 @@ pub struct Hist {
     pub history: Vec<(usize, usize)>,
     /// skip the cost estimate (hand-written families are known to be cheap)
     pub trusted_cost: bool,
+    /// partial compilation policy of the parsers: 0 = lazy, 1 = eager, 2 = on demand
+    #[serde(default)]
+    pub policy: u8,
 }
 
 fn result_key(r: &lq::R<String>) -> Result<String, String> {
@@ -42,9 +45,10 @@ pub fn oracle(h: &Hist, obs: &mut Obs) -> Check {
             }
         }
     }
-    let shared = match lq::parser_with_partials(Policy::Lazy, &h.partials) {
+    let policy = [Policy::Lazy, Policy::Eager, Policy::OnDemand][h.policy as usize % 3];
+    let shared = match lq::parser_with_partials(policy, &h.partials) {
         Ok(Ok(p)) => p,
-        other => return Err(Failure::new("repeat: building a parser with a lazy partial store fails", format!("{:?}", other.map(|r| r.map(|_| ())).map_err(|p| p.what)))),
+        other => return Err(Failure::new("repeat: building a parser with a partial store fails", format!("{:?}", other.map(|r| r.map(|_| ())).map_err(|p| p.what)))),
     };
     let parsed: Vec<_> = h.templates.iter().map(|s| lq::parse(&shared, s)).collect();
     let objects: Vec<liquid::Object> = h.data.iter().map(|d| d.to_object()).collect();
@@ -65,7 +69,7 @@ pub fn oracle(h: &Hist, obs: &mut Obs) -> Check {
             any_failed = true;
         }
         // (b) freshly built parser, freshly parsed template
-        let fresh = match lq::parser_with_partials(Policy::Lazy, &h.partials) {
+        let fresh = match lq::parser_with_partials(policy, &h.partials) {
             Ok(Ok(p)) => result_key(&lq::run(&p, &h.templates[*t], &objects[*d])),
             _ => Err("build".into()),
         };
@@ -161,7 +165,9 @@ pub fn family() -> Vec<(Vec<String>, Vec<(String, String)>, Vec<RV>)> {
 
 fn family_nth(i: u64) -> Option<Hist> {
     let fam = family();
-    let d = crate::engine::decode(i, &[fam.len() as u64, 3, 9, 9, 9])?;
+    let d = crate::engine::decode(i, &[3, fam.len() as u64, 3, 9, 9, 9])?;
+    let policy = d[0] as u8;
+    let d = &d[1..];
     let len = d[1] as usize + 1;
     for j in len..3 {
         if d[2 + j] != 0 {
@@ -170,7 +176,7 @@ fn family_nth(i: u64) -> Option<Hist> {
     }
     let (templates, partials, data) = fam[d[0] as usize].clone();
     let history = (0..len).map(|j| ((d[2 + j] / 3) as usize, (d[2 + j] % 3) as usize)).collect();
-    Some(Hist { templates, partials, data, history, trusted_cost: true })
+    Some(Hist { templates, partials, data, history, trusted_cost: true, policy })
 }
 
 // ---- random scenarios
@@ -217,8 +223,9 @@ fn random_hist(max_len: usize) -> BoxedStrategy<Hist> {
         astgen::nodes(&partial_cfg(), 4),
         proptest::collection::vec((0usize..3, 0usize..3), 2..=max_len),
         proptest::sample::subsequence(data_pool(), 2..=3),
+        0u8..3,
     )
-        .prop_filter_map("explosive program", |(templates, p, q, history, data)| {
+        .prop_filter_map("explosive program", |(templates, p, q, history, data, policy)| {
             let defs = vec![("p".to_string(), PartialDef::Ok(p.clone())), ("q".to_string(), PartialDef::Ok(q.clone())), ("bad".to_string(), PartialDef::Broken)];
             for t in &templates {
                 for d in &data {
@@ -235,16 +242,17 @@ fn random_hist(max_len: usize) -> BoxedStrategy<Hist> {
                 data,
                 history: history.into_iter().map(|(t, d)| (t % nt, d % nd)).collect(),
                 trusted_cost: false,
+                policy,
             })
         })
         .boxed()
 }
 
 pub fn run(ctx: &Ctx) {
-    ctx.set_rule("E2: three hand-written families of 3 stateful templates (cycle named and unnamed, increment/decrement, ifchanged, assign, capture that fails midway, break/continue, ranges with variable bounds, include/render of partials that cycle/assign/break/fail, a broken and a missing partial) x 3 data objects sharing one parser with a lazy partial store: every history of <= 3 render calls (9 + 81 + 729 per family); E1: random histories of 2..6 (thorough 10) calls over 2-3 generated templates (all stateful constructs, partial calls, failing reads) x 2-3 data objects. Oracle: every call's result (output or error text) equals the first occurrence of the same call and the same call on a freshly built parser with a freshly parsed template; data objects deep-compared. Non-trivial = a (template, data) pair repeats in the history; distinct by (templates, data, history).");
+    ctx.set_rule("E2: three hand-written families of 3 stateful templates (cycle named and unnamed, increment/decrement, ifchanged, assign, capture that fails midway, break/continue, ranges with variable bounds, include/render of partials that cycle/assign/break/fail, a broken and a missing partial) x 3 data objects sharing one parser, under each partial compilation policy (lazy, eager, on demand): every history of <= 3 render calls (9 + 81 + 729 per family); E1: random histories of 2..6 (thorough 10) calls over 2-3 generated templates (all stateful constructs, partial calls, failing reads) x 2-3 data objects. Oracle: every call's result (output or error text) equals the first occurrence of the same call and the same call on a freshly built parser with a freshly parsed template; data objects deep-compared. Non-trivial = a (template, data) pair repeats in the history; distinct by (templates, data, history).");
     ctx.assume("multi-key object iteration is never observed by the generated templates; the same data Object instance is used for all renders of a history");
     let n = family().len() as u64;
-    ctx.exhaustive("family_histories", n * 3 * 9 * 9 * 9, family_nth, oracle);
+    ctx.exhaustive("family_histories", 3 * n * 3 * 9 * 9 * 9, family_nth, oracle);
     let max_len = ctx.pick(6, 10);
     ctx.random("random_histories", ctx.pick(40_000, 2_000_000), move || random_hist(max_len), oracle);
 }
